@@ -11,7 +11,7 @@
 From Coq Require Import List ZArith Bool Lia.
 From GrolGen Require Import Gen_Consts.
 From GrolModel Require Import Arith Guards.
-From GrolProofs Require Import Arith_proofs Guards_proofs.
+From GrolProofs Require Import Arith_proofs Guards_proofs Guards_cancel_proofs.
 Import ListNotations.
 Local Open Scope Z_scope.
 
@@ -45,6 +45,23 @@ Theorem C09_run_terminates : forall maxd t,
   exists h c, run maxd None (fuel_for t) (init 0 t) = (Some h, c)
               /\ (h = GuardDepth \/ (h = Done ROk /\ c_depth c = 0 /\ c_visits c = size t)).
 Proof. exact run_terminates. Qed.
+
+(* "evaluation of any program returns", for ALL cancellation instants: whatever the instant at which the context is
+   cancelled (never, before the first entry, at any later entry), the run of a finite call tree halts within fuel_for t
+   steps - in the depth guard, or with the outermost call returned, State.depth back to 0 and at most [size t]
+   evalInternal entries made *)
+Theorem C09_run_terminates_any_cancellation : forall maxd ca t,
+  exists h c, run maxd ca (fuel_for t) (init 0 t) = (Some h, c)
+              /\ (h = GuardDepth
+                  \/ (exists r, h = Done r /\ c_depth c = 0 /\ (1 <= c_visits c <= size t)%nat)).
+Proof. exact run_terminates_any_cancel. Qed.
+
+(* cancelled before the first entry: one evalInternal entry, the context error, depth untouched - whatever the program *)
+Theorem C09_cancelled_from_start : forall maxd t,
+  0 <= maxd ->
+  exists c, run maxd (Some 0%nat) (fuel_for t) (init 0 t) = (Some (Done RErr), c)
+            /\ c_visits c = 1%nat /\ c_depth c = 0.
+Proof. exact cancelled_from_start. Qed.
 
 (* once the context is cancelled every node evaluation returns the context error at once, without touching
    its children (or the depth guard fires first) *)
@@ -123,6 +140,17 @@ Example C09_ex_depth :
   /\ array_repeat 209715200 3 100 = Val 300.
 Proof. vm_compute. repeat split. Qed.
 
+(* non-vacuity: the same 3-level recursion cancelled after 7 entries returns the context error after 8 of its 46 entries *)
+Example C09_ex_cancel :
+  let t := program 1 (GRec GLeaf [GLeaf]) [GRec GLeaf [GInfix GLeaf GLeaf]] [GRec GLeaf [GInfix GLeaf GLeaf]] 3 in
+  size t = 46%nat
+  /\ fst (run 100 (Some 7%nat) (fuel_for t) (init 0 t)) = Some (Done RErr)
+  /\ c_visits (snd (run 100 (Some 7%nat) (fuel_for t) (init 0 t))) = 8%nat
+  /\ fst (run 100 None (fuel_for t) (init 0 t)) = Some (Done ROk).
+Proof. vm_compute. repeat split. Qed.
+
+Print Assumptions C09_run_terminates_any_cancellation.
+Print Assumptions C09_cancelled_from_start.
 Print Assumptions C09_depth_invariant.
 Print Assumptions C09_depth_exceeded_is_guard.
 Print Assumptions C09_guard_fires_iff_need.
